@@ -150,6 +150,9 @@ def flex_layout(context, box, bottom_space, skip_stack, containing_block, page_i
         # See https://www.w3.org/TR/css-flexbox-1/#min-size-auto.
         if main == 'width':
             child_containing_block = (available_main_space, parent_box.height)
+        elif available_main_space == inf:
+            # Percentages are resolved against an indefinite height
+            child_containing_block = (parent_box.width, 'auto')
         else:
             child_containing_block = (parent_box.width, available_main_space)
         percent.resolve_percentages(child, child_containing_block)
